@@ -28,6 +28,15 @@ type EmbStruct struct {
 	Tags []string
 }
 
+// StrStruct has a String method that shows only part of it.
+type StrStruct struct {
+	Name  string
+	Level int
+	Tags  []string
+}
+
+func (s StrStruct) String() string { return s.Name }
+
 // IfaceStruct: comparable as a type, not necessarily as a value.
 type IfaceStruct struct {
 	Name string
@@ -195,6 +204,13 @@ func init() {
 		}
 		return IfaceStruct{Name: l.Elems[0].S, Any: []int{int(l.Elems[1].I), int(l.Elems[2].I)}}
 	}
+	extraLeaf["stringer-struct"] = func(l *LeafDesc) any {
+		v := StrStruct{Name: l.Elems[0].S, Level: int(l.Elems[1].I), Tags: []string{l.Elems[2].S, l.Elems[3].S}}
+		if l.N == 1 {
+			return &v
+		}
+		return v
+	}
 	extraLeaf["homonym-a"] = homonymA
 	extraLeaf["homonym-b"] = homonymB
 	extraLeaf["slice-struct"] = func(l *LeafDesc) any {
@@ -287,7 +303,9 @@ func c05Leaf(r *core.Rng) *LeafDesc {
 	case 14:
 		return &LeafDesc{Tag: "emb-struct", Elems: []*LeafDesc{strLeaf(r), strLeaf(r), strLeaf(r)}}
 	case 16:
-		switch r.Intn(3) {
+		switch r.Intn(4) {
+		case 3:
+			return &LeafDesc{Tag: "stringer-struct", N: r.Intn(2), Elems: []*LeafDesc{strLeaf(r), intLeaf(r), strLeaf(r), strLeaf(r)}}
 		case 0:
 			return &LeafDesc{Tag: "iface-struct", N: r.Intn(2), Elems: []*LeafDesc{strLeaf(r), intLeaf(r), intLeaf(r)}}
 		case 1:
@@ -498,7 +516,7 @@ func c05Run(c *core.Ctx, idx int) {
 		}
 		return inst{s: n.BuildStack()}
 	}
-	eq := func(x, y inst) (err error, pan bool, msg, site string) {
+	eq1 := func(x, y inst) (err error, pan bool, msg, site string) {
 		pan, msg, site = Guard(func() {
 			if condRoot {
 				err = x.cd.IsEqual(y.cd)
@@ -507,6 +525,23 @@ func c05Run(c *core.Ctx, idx int) {
 			}
 		})
 		return
+	}
+	// every third case asks each question twice: the verdict is a function of the two values, not of what was compared
+	// before (the second answer is the one judged; a first answer that differs is reported as such)
+	twice := idx%3 == 1
+	eq := func(x, y inst) (err error, pan bool, msg, site string) {
+		err, pan, msg, site = eq1(x, y)
+		if !twice || pan {
+			return
+		}
+		err2, pan2, msg2, site2 := eq1(x, y)
+		if pan2 {
+			return err2, pan2, msg2, site2
+		}
+		if (err == nil) != (err2 == nil) {
+			c.Violatef("verdict-changes-on-repetition", map[string]any{"tree": base, "condition_root": condRoot}, "the same IsEqual call on unchanged values answered %v the first time and %v the second time; base %s", err, err2, base.Brief())
+		}
+		return err2, false, "", ""
 	}
 	A, B := build(base), build(base)
 	desc := func(site string) map[string]any {
